@@ -334,6 +334,68 @@ Fixpoint final_offsets {O} (p c : Z) (ds : list (Z * list O)) : Z * Z :=
   | (off, _) :: r => final_offsets c off r
   end.
 
+(* ---- the two offsets after a scan that ended with an ERROR (modelled and observed behaviour;
+   outside property C09, which speaks of stop positions after returned objects) ----
+   An error reaches Next as a pair too, and Next shifts pOffset := cOffset; cOffset := pair.Offset
+   BEFORE it looks at the pair's error.  A reader-side error (a block cut short, a block of an
+   unexpected type, any readFileBlock error) travels as iPair{Err: err}: Offset 0.  A decode
+   error travels as oPair{Offset: p.Offset, Err: err}: the offset of the bad block.  An error of
+   Start (first block) is returned directly: no pair, nothing shifts.  [*_err_off]: the Offset of
+   the error pair, None when the scan ends without one. *)
+Fixpoint loop_err_off {O} (v : variant) (fs : list (frame O)) (avail off : Z) : option Z :=
+  match fs with
+  | [] => match read_file_block v (@None (frame O)) avail with
+          | FbErr EEOF => None
+          | FbErr _ => Some 0
+          | _ => None
+          end
+  | f :: fs' =>
+      match read_file_block v (Some f) avail with
+      | FbErr EEOF => None
+      | FbErr _ => Some 0
+      | FbOk ty b n =>
+          match ty with
+          | TyData =>
+              match decode_data v b with
+              | SObjs _ => loop_err_off v fs' (avail - n) (off + n)
+              | SErr => Some off
+              | _ => None
+              end
+          | _ => Some 0
+          end
+      | _ => None
+      end
+  end.
+
+Definition scan_err_off {O} (v : variant) (fs : list (frame O)) (avail : Z) : option Z :=
+  match fs with
+  | [] => None
+  | f :: fs' =>
+      match read_file_block v (Some f) avail with
+      | FbOk ty b n =>
+          let as_data :=
+            match decode_data v b with
+            | SObjs _ => loop_err_off v fs' (avail - n) n
+            | SErr => Some 0
+            | _ => None
+            end in
+          match ty with
+          | TyHeader => match decode_header v b with
+                        | SObjs _ => loop_err_off v fs' (avail - n) n
+                        | _ => None
+                        end
+          | TyData => as_data
+          | TyOther => if v_first_other_is_data v then as_data else None
+          end
+      | _ => None
+      end
+  end.
+
+(* (PreviousFullyScannedBytes, FullyScannedBytes) once Scan has returned false, error or not *)
+Definition end_offsets {O} (r : result O) (eo : option Z) : Z * Z :=
+  let '(p, c) := final_offsets 0 0 (deliveries r) in
+  match eo with Some o => (c, o) | None => (p, c) end.
+
 (* data[off:] as frames: Some rest when [off] is the start of a frame (or the end), None otherwise *)
 Fixpoint seek {O} (off : Z) (fs : list (frame O)) : option (list (frame O)) :=
   if off =? 0 then Some fs else
